@@ -22,6 +22,29 @@ type tctx struct {
 	m    string // unique alphanumeric marker (lets the monitor tell which URI a Location was built from)
 }
 
+// ---- targets a "development convenience" would special-case: loopback, unspecified and private
+// addresses, localhost / .localhost / .local / .internal names. None of them is inside a configured
+// root domain, whatever the authenticator's scheme / host / cookie settings.
+var devTemplates []int
+
+func init() {
+	dev := func(name, hostport string) {
+		for _, sch := range []string{"http", "https"} {
+			sch := sch
+			templates = append(templates, tmpl{"dev-" + sch + "-" + name, "dev-convenience", func(c tctx) string { return sch + "://" + hostport + "/" + c.m }})
+		}
+	}
+	for _, d := range [][2]string{
+		{"localhost", "localhost"}, {"localhost-port", "localhost:4180"}, {"localhost-trailing-dot", "localhost."}, {"localhost-upper", "LOCALHOST"},
+		{"127.0.0.1", "127.0.0.1"}, {"127.0.0.1-port", "127.0.0.1:8080"}, {"127.1", "127.1"}, {"127.8.9.10", "127.8.9.10"},
+		{"ipv6-loopback", "[::1]"}, {"ipv6-loopback-port", "[::1]:8080"}, {"ipv6-loopback-long", "[0:0:0:0:0:0:0:1]"}, {"ipv6-mapped-loopback", "[::ffff:127.0.0.1]"},
+		{"0.0.0.0", "0.0.0.0"}, {"sub.localhost", "app.localhost"}, {"sub.local", "proxy.local"}, {"sub.internal", "proxy.internal"}, {"sub.localdomain", "dev.localdomain"},
+		{"10.x", "10.0.0.5"}, {"192.168.x", "192.168.1.10:4180"}, {"172.16.x", "172.16.0.9"}, {"169.254.x", "169.254.169.254"}, {"userinfo-localhost", "app@localhost"},
+	} {
+		dev(d[0], d[1])
+	}
+}
+
 type tmpl struct {
 	name   string
 	family string
@@ -314,6 +337,9 @@ func init() {
 			goodTemplates = append(goodTemplates, i)
 		} else {
 			trickyTemplates = append(trickyTemplates, i)
+		}
+		if t.family == "dev-convenience" {
+			devTemplates = append(devTemplates, i)
 		}
 	}
 }
